@@ -177,6 +177,22 @@ func init() {
 					c.Add(map[string]any{"op": "abi.event", "entry": e, "values": v, "rawTopics": raws, "variant": variant}, "event."+variant)
 				}
 			}
+			// revert data shorter than a selector, or nothing at all, carries no selector: it is attributed to nothing — also
+			// when the ABI has errors without arguments (whose whole encoding is their selector)
+			for i := 0; i < 40; i++ {
+				ab := []any{entryJSON("error", Pick(r, []string{"Unauthorized", "Paused", "E"}), false, nil)}
+				if r.Bool() {
+					ab = append(ab, entryJSON("error", "WithArgs", false, genEntryParams(r, 1)))
+				}
+				if r.Bool() {
+					ab = append([]any{entryJSON("function", "f", false, nil)}, ab...)
+				}
+				e0 := entryFromJSON(ab[len(ab)-1].(map[string]any))
+				sel := e0.FunctionSelectorBytes()
+				for _, d := range [][]byte{nil, {}, sel[:1], sel[:2], sel[:3], r.Bytes(3), sel, append(append([]byte{}, sel...), 0)} {
+					c.Add(map[string]any{"op": "abi.rawentry", "kind": "error", "abi": ab, "data": hx(d), "nilData": d == nil}, "error.short")
+				}
+			}
 			// revert data attribution
 			nr := 150
 			if c.Thorough() {
@@ -218,6 +234,8 @@ func init() {
 		},
 		ImplO: func(req map[string]any, orc map[string]any) any {
 			switch str(req, "op") {
+			case "abi.rawentry":
+				return rawEntryImpl(req)
 			case "abi.entry":
 				e := entryFromJSON(req["entry"])
 				if h, has := req["history"].(map[string]any); has {
@@ -322,6 +340,14 @@ func init() {
 			var fs []Finding
 			if impl == "panic" {
 				return []Finding{{Kind: "violation", Region: str(req, "op") + ".panic", Detail: "panicked"}}
+			}
+			if str(req, "op") == "abi.rawentry" {
+				fs = append(fs, rawEntryJudge(req, impl, orc)...)
+				// less than four bytes carry no selector: attributed to nothing
+				if m, isMap := impl.(map[string]any); isMap && len(str(req, "data")) < 8 && m["dec"] != nil {
+					fs = append(fs, Finding{Kind: "violation", Region: "abi.error.short-data", Detail: "revert data of " + fmt.Sprint(len(str(req, "data"))/2) + " bytes (no selector) was attributed to an error definition: " + trunc(canon(m["dec"]), 200)})
+				}
+				return fs
 			}
 			if orc["badtype"] == true {
 				return []Finding{{Kind: "mismatch", Region: "harness.expectation", Detail: "generated entry does not parse in the model"}}
